@@ -161,6 +161,7 @@ def body(chk):
     chk.solve_all()
     # finite part of the statement on the real library: every documented evaluator at an interior point with default parameters
     nbad = 0
+    expected = 0
     import replay as rp
     lines = ['#include <masa.h>', '#include <cstdio>', '#include <cmath>', 'using namespace MASA;',
              'double cbd(double t){return std::exp(-1.0/t);}', 'long double cbe(long double t){return std::exp(-1.0L/t);}', 'int main(){']
@@ -174,11 +175,16 @@ def body(chk):
                 lines.append('  printf("\\nI %s|%s\\n"); fflush(stdout); masa_init<%s>("%s_%s","%s");' % (scalar.replace(' ', '_'), name, cxx, name, 'd' if scalar == 'double' else 'e', name))
                 cur = name
             pts = ['0.37', '0.41', '0.43', '0.47']
-            a = []
-            for k, p in enumerate(sg.split(',') if sg else []):
-                a.append('(%s)%s' % (cxx, pts[k]) if p == 'S' else ('2' if p == 'int' else ('cbd' if scalar == 'double' else 'cbe')))
-            lines.append('  { %s v = %s<%s>(%s); printf("\\nR %s|%s|%s(%s) %%d %%.17Lg\\n", (int)(std::isfinite((double)v) && v != (%s)(-1.33)), (long double)v); }'
-                         % (cxx, api, cxx, ','.join(a), scalar.replace(' ', '_'), name, api, sg, cxx))
+            parts = sg.split(',') if sg else []
+            # an evaluator with a direction index is called for every valid direction 1..(number of space coordinates)
+            dirs = list(range(1, min(3, parts.count('S')) + 1)) if 'int' in parts else [None]
+            for di in dirs:
+                a = []
+                for k, p in enumerate(parts):
+                    a.append('(%s)%s' % (cxx, pts[k]) if p == 'S' else (str(di) if p == 'int' else ('cbd' if scalar == 'double' else 'cbe')))
+                expected += 1
+                lines.append('  { %s v = %s<%s>(%s); printf("\\nR %s|%s|%s(%s)%s %%d %%.17Lg\\n", (int)(std::isfinite((double)v) && v != (%s)(-1.33)), (long double)v); }'
+                             % (cxx, api, cxx, ','.join(a), scalar.replace(' ', '_'), name, api, sg, '' if di is None else '[i=%d]' % di, cxx))
     lines.append('  return 0;}')
     rc, out, err = chk.lib().run('\n'.join(lines) + '\n')
     seen = 0
@@ -190,7 +196,7 @@ def body(chk):
                 nbad += 1
                 path = chk.save_replay('interior:' + tag, dict(case=tag, value=val), '\n'.join(lines))
                 chk.report_violation('interior:' + tag.split('|', 1)[1], path, 'documented evaluator returns %s at the interior point with default parameters' % val)
-    if seen != len(concrete):
+    if seen != expected:
         # the real library died (masa_init of a listed name is fatal, or an evaluator crashed): the last marker names the entry
         marks = [l[2:] for l in out.split('\n') if l.startswith('I ')]
         last = marks[-1] if marks else '?'
